@@ -75,9 +75,10 @@ class FnFlow:
     def tainted(self, state, pl):
         if pl is None:
             return False
+        raw = pl
         pl = self.norm(pl)
         for t in state:
-            if _is_prefix(t, pl) or _is_prefix(pl, t):
+            if _is_prefix(t, pl) or _is_prefix(pl, t) or _is_prefix(t, raw):
                 return True
         # a reference temp whose target is tainted
         base = pl.split("|")[0]
@@ -117,11 +118,13 @@ class FnFlow:
         """returns (state_out_normal_successors, list of (_0 assignment events))"""
         state = set(state)
         bb = self.bbs[bi]
-        for st in bb["st"]:
+        for si, st in enumerate(bb["st"]):
             if st[1] != "=":
                 continue
             dest, rv = st[2], st[3]
             is_t = any(self.op_tainted(state, o) for o in self.rv_ops(rv))
+            if getattr(self, "_stmt_src", None) == (bi, si):
+                is_t = True
             nd = self.norm(dest)
             state = self._kill(state, nd)
             if is_t:
@@ -133,6 +136,11 @@ class FnFlow:
             if src_site is not None and src_site == ("call", bi):
                 state = self._kill(state, dest)
                 state.add(self.norm(dest))
+                # a mutating source (`x.add(..)`, `x.extend(..)`): what it wrote into its receiver is the value of interest
+                if args:
+                    p0 = _op_place(args[0])
+                    if p0 and p0 in self.ref_of and self._is_mut_ref(p0):
+                        state.add(self.norm(self.ref_of[p0]))
                 return state
             any_t = any(self.op_tainted(state, a) for a in args)
             nd = self.norm(dest)
@@ -157,13 +165,18 @@ class FnFlow:
     def succs(self, bi):
         return self.F.succ(self.fn, bi, with_unwind=False)
 
-    def run(self, source):
-        """source = ('call', bb) | ('arg', k).  Returns list of result dicts for every success-store to _0 reachable
-        from the source: {'bb':..,'ok':bool,'kind':..,'loc':..}"""
+    def run(self, source, sink=None):
+        """source = ('call', bb) | ('arg', k) | ('stmt', bb, si).  sink = None (success stores to _0) or ('callargs', bb).
+        Returns list of result dicts {'bb':..,'ok':bool,'kind':..,'loc':..}"""
         IN = {}
+        self._stmt_src = None
         if source[0] == "call":
             start = source[1]
             init = set()
+        elif source[0] == "stmt":
+            start = source[1]
+            init = set()
+            self._stmt_src = (source[1], source[2])
         else:
             start = 0
             init = {"_%d" % source[1]}
@@ -195,8 +208,30 @@ class FnFlow:
                         work.append(s)
                     elif s not in OUT:
                         work.append(s)
-        # evaluate every store to _0 in blocks reached
         results = []
+        if sink is not None and sink[0] == "callargs":
+            b = sink[1]
+            if b not in IN:
+                return []
+            state = set(IN[b])
+            # replay statements of the block
+            tmp = FnFlow.__new__(FnFlow)
+            tmp.__dict__.update(self.__dict__)
+            bbk = self.bbs[b]
+            saved_t = bbk["t"]
+            st_state = set(state)
+            for si, st in enumerate(bbk["st"]):
+                if st[1] != "=":
+                    continue
+                dest, rv = st[2], st[3]
+                is_t = any(self.op_tainted(st_state, o) for o in self.rv_ops(rv))
+                nd = self.norm(dest)
+                st_state = self._kill(st_state, nd)
+                if is_t:
+                    st_state.add(nd)
+            ok = any(self.op_tainted(st_state, a) for a in saved_t[3])
+            return [{"bb": b, "ok": ok, "kind": "callargs", "loc": saved_t[0]}]
+        # evaluate every store to _0 in blocks reached
         for b in sorted(IN):
             if self.bbs[b]["c"]:
                 continue
